@@ -4,6 +4,7 @@ import (
 	"bufio"
 	"encoding/json"
 	"fmt"
+	"github.com/protobom/protobom/pkg/verifhook"
 	"io"
 	"os"
 	"strings"
@@ -104,6 +105,7 @@ func (fs *Sniffer) SniffReader(f io.ReadSeeker) (Format, error) {
 
 	initSniffState()
 	for fileScanner.Scan() {
+		verifhook.Point("formats.SniffReader:line-loop")
 		format = fs.sniff(fileScanner.Bytes())
 
 		if format != EmptyFormat {
@@ -159,6 +161,7 @@ type spdxSniff struct{}
 
 func (c spdxSniff) sniff(data []byte) Format {
 	state := getSniffState(SPDXFORMAT)
+	verifhook.Point("formats.spdxSniff:between-get-and-set-state")
 
 	stringValue := string(data)
 
